@@ -187,17 +187,51 @@ def opSpecLabels : J.Op := fun j => do
   pure <| J.obj [("ok", J.ofBool ok), ("detail", J.ofStr msg),
                  ("phases", J.ofMat J.ofBool (rnd.map (fun r => phases (xoMask r xo))))]
 
+/-- the closed forms of the model (`pairProb`, `phaseProb`, joint law, `pairProb2`, `pairProbN`, `crossProbN`) at
+    the markers `idx`, for any scalar type the model is polymorphic in -/
+def probTables {α : Type} [Add α] [Mul α] [Sub α] [Div α] [OfNat α 0] [OfNat α 1] [OfNat α 2]
+    (xo : List α) (idx : List Nat) (ngen : Nat) (enc : α → Json) : List (String × Json) :=
+  let z : α := 0
+  [("pair", J.ofMat enc (idx.map (fun i => idx.map (fun k => if i < k then pairProb xo i k else z)))),
+   ("phase", J.ofList enc (idx.map (fun k => phaseProb xo k))),
+   -- P(phase_i = 1 and phase_k = 1), i < k:  P(U = 1) * P(V = 0)
+   ("both", J.ofMat enc (idx.map (fun i => idx.map (fun k =>
+      if i < k then phaseProb xo i * (1 - pairProb xo i k) else z)))),
+   ("pair2", J.ofMat enc (idx.map (fun i => idx.map (fun k => if i < k then pairProb2 xo i k else z)))),
+   ("pairN", J.ofMat enc (idx.map (fun i => idx.map (fun k => if i < k then pairProbN xo i k ngen else z)))),
+   ("crossN", J.ofMat enc (idx.map (fun i => idx.map (fun k => if i < k then crossProbN xo i k ngen else z))))]
+
+/-- a double as the exact rational it denotes (0 for NaN / inf, which the closed forms never produce from
+    probabilities in [0, 1]) -/
+def floatToRat (x : Float) : Rat :=
+  if x.isNaN || x.isInf then 0 else
+  let neg := x < 0
+  let (f, e) := (if neg then -x else x).frExp
+  let m : Nat := (Float.scaleB f 53).toUInt64.toNat
+  let e' : Int := e - 53
+  let q : Rat := if e' ≥ 0 then ((m * 2 ^ e'.toNat : Nat) : Rat) else (m : Rat) / ((2 ^ (-e').toNat : Nat) : Rat)
+  if neg then -q else q
+
+def ratToFloat (q : Rat) : Float := Float.ofInt q.num / Float.ofNat q.den
+
 /-- exact probabilities of the model for a crossover-probability vector: closed forms, and for
-    short vectors the exhaustive enumeration `E` they are proved equal to -/
+    short vectors the exhaustive enumeration `E` they are proved equal to.  `idx` (optional): only these
+    markers (matrices are then indexed by position in `idx`); `ngen` (optional): also the closed forms after
+    that many selfing generations (`pairProbN`, `crossProbN`); `float` (optional, panels of thousands of markers):
+    the same definitions evaluated in binary64 instead of exact rationals. -/
 def opProbs : J.Op := fun j => do
   let xo ← J.field j "xoprob" (J.list J.rat)
   let m := xo.length
-  let idx := List.range m
-  let pair := idx.map (fun i => idx.map (fun k => if i < k then pairProb xo i k else 0))
-  let phase := idx.map (fun k => phaseProb xo k)
-  -- P(phase_i = 1 and phase_k = 1), i < k:  P(U = 1) * P(V = 0)
-  let both := idx.map (fun i => idx.map (fun k =>
-      if i < k then phaseProb xo i * (1 - pairProb xo i k) else 0))
+  let idx ← J.fieldD j "idx" (J.list J.nat) (List.range m)
+  let ngen ← J.fieldD j "ngen" J.nat 0
+  let fl ← J.fieldD j "float" J.bool false
+  -- `sameProb` (a product over ALL markers) is always evaluated in binary64: as an exact rational it has
+  -- thousands of digits on panels of a few hundred markers
+  let same : Json := J.ofRat (floatToRat (sameProb (xo.map ratToFloat)))
+  if fl then
+    pure <| J.obj (probTables (xo.map ratToFloat) idx ngen (fun x => J.ofRat (floatToRat x)) ++
+                   [("enum_ok", J.ofBool true), ("same", same)])
+  else
   let enumOk : Bool :=
     if m ≤ 7 then
       idx.all (fun i => idx.all (fun k => !(i < k) ||
@@ -208,7 +242,6 @@ def opProbs : J.Op := fun j => do
     else true
   -- two generations (a gamete of a plant whose own copies are independent gametes of one grandparent):
   -- closed form `pairProb2` (theorem two_generation_recombination_law), enumerated for very short vectors
-  let pair2 := idx.map (fun i => idx.map (fun k => if i < k then pairProb2 xo i k else 0))
   let enum2Ok : Bool :=
     if m ≤ 3 then
       idx.all (fun i => idx.all (fun k => !(i < k) ||
@@ -216,9 +249,27 @@ def opProbs : J.Op := fun j => do
             ind (lab2 (b.take m) ((b.drop m).take m) ((b.drop m).drop m) i !=
                  lab2 (b.take m) ((b.drop m).take m) ((b.drop m).drop m) k)) == pairProb2 xo i k))
     else true
-  pure <| J.obj [("pair", J.ofMat J.ofRat pair), ("phase", J.ofList J.ofRat phase),
-                 ("both", J.ofMat J.ofRat both), ("enum_ok", J.ofBool (enumOk && enum2Ok)),
-                 ("pair2", J.ofMat J.ofRat pair2)]
+  -- any number of selfing generations (theorem n_generation_recombination_law), enumerated while 2^(2·n·m) is small
+  let enumNOk : Bool :=
+    if ngen ≥ 1 && 2 * ngen * m ≤ 12 then
+      idx.all (fun i => idx.all (fun k => !(i < k) ||
+        (E (rep (2 * ngen) xo) (fun b => ind (labO m ngen b false i != labO m ngen b false k)) == pairProbN xo i k ngen
+         && E (rep (2 * ngen) xo) (fun b => ind (labO m ngen b false i != labO m ngen b true k))
+              == crossProbN xo i k ngen)))
+    else true
+  let sameOk : Bool := m > 7 || E (xo ++ xo) (fun b => ind (phases (b.take m) == phases (b.drop m))) == sameProb xo
+  pure <| J.obj (probTables xo idx ngen J.ofRat ++
+                 [("enum_ok", J.ofBool (enumOk && enum2Ok && enumNOk && sameOk)), ("same", same)])
+
+/-- Spec oracle on the crossover probabilities the implementation stores (`null` = not a finite number):
+    exactly 1/2 at every chromosome start (`specStarts`, theorems spec_starts_sound / spec_starts_iff) -/
+def opSpecStarts : J.Op := fun j => do
+  let chr ← J.field j "chr" (J.list J.int)
+  let xo ← J.field j "xoprob" (J.list (J.opt J.rat))
+  let bad := (List.zip (List.range xo.length) (List.zip chr xo)).filter (fun t =>
+    (t.1 == 0 || chr[t.1 - 1]? != some t.2.1) && t.2.2 != some (1 / 2))
+  pure <| J.obj [("ok", J.ofBool (specStarts chr xo)),
+                 ("bad", J.ofList J.ofNat (bad.map (fun t => t.1)))]
 
 /-- model of gdist1g: distances to the previous marker, null = +inf (chromosome start) -/
 def opGdist : J.Op := fun j => do
@@ -242,6 +293,7 @@ def opEmbvCalls : J.Op := fun j => do
 def ops : List (String × J.Op) :=
   [("c02.meiosis", opMeiosis), ("c02.spec_meiosis", opSpecMeiosis), ("c02.spec_labels", opSpecLabels),
    ("c02.probs", opProbs), ("c02.gdist", opGdist), ("c02.proto_calls", opProtoCalls),
-   ("c02.embv_calls", opEmbvCalls), ("c02.proto_full", opProtoFull), ("c02.embv_full", opEmbvFull)]
+   ("c02.embv_calls", opEmbvCalls), ("c02.proto_full", opProtoFull), ("c02.embv_full", opEmbvFull),
+   ("c02.spec_starts", opSpecStarts)]
 
 end Drv.C02
